@@ -12,8 +12,8 @@ VERIF = os.path.dirname(os.path.dirname(os.path.abspath(__file__)))
 REPO = os.environ.get("ONSAGER_REPO", "/repo")
 COQDIR = os.path.join(VERIF, "coq")
 BUILD = os.path.join(VERIF, "build")
-REPLAYS = os.path.join(VERIF, "replays")
-EVIDENCE = os.path.join(VERIF, "evidence")
+REPLAYS = os.environ.get("VERIF_REPLAY_DIR", os.path.join(VERIF, "replays"))
+EVIDENCE = os.environ.get("VERIF_EVIDENCE_DIR", os.path.join(VERIF, "evidence"))   # overridden when running against a mutated scratch tree
 KNOWN = os.path.join(VERIF, "known_findings.txt")
 COQ_TIMEOUT = int(os.environ.get("VERIF_COQ_TIMEOUT", "1500"))
 PERFILE_TIMEOUT = int(os.environ.get("VERIF_COQ_FILE_TIMEOUT", "400"))
